@@ -21,9 +21,13 @@ is proved for all inputs where the code satisfies it, with the exact guards:
 * **powers**: `M e ±E` is read as exact Python ints and evaluated as `M · 10^±E` (`power_e_reads`), exact while the
   result has at most 15 digits (`power_e_exact`, `power_ten_table`); `N ^ E` is exact while `N^E < 10^15`
   (`power_caret_exact`).
+  `_power_number_parse` exists in two variants (`fx`; findings/numfrac/pow-x10.diff, the correspondence probes which one
+  the tree follows): the theorems above hold for both; `power_x10_exact` — `M x10^ E` denotes `M · 10^E` — is the
+  full-strength statement for the repaired variant, `x10_caret_witness` (`1.5x10^3` ↦ 1.51³) the labelled pre-fix
+  regression.
 Where the real code violates the property on a legitimate input there is a witness (replayed by
-`harness/lib/numfraccorr.py`, recorded findings): `x10_caret_witness` (`1.5x10^3` ↦ 1.51³), `mixed_roundth_witness`
-(`two and three hundredths` ↦ 0.0066…), `thirty_seconds_witness` (`three thirty-seconds` ↦ 0.1).
+`harness/lib/numfraccorr.py`, recorded findings): `mixed_roundth_witness` (`two and three hundredths` ↦ 0.0066…),
+`thirty_seconds_witness` (`three thirty-seconds` ↦ 0.1).
 Closed instances are kernel evaluations of the model on the regenerated English configuration.
 -/
 namespace RTV.NumFrac
@@ -352,16 +356,32 @@ theorem thirty_seconds_witness :
 
 /-! ## powers -/
 
-/-- **exponent notation is read exactly.** `M e E` / `M e -E` with an integer mantissa (ASCII digits of any length, any
-decimal separator character other than `-`): the value is `multiply(Decimal(M), power(Decimal(10), Decimal(±E)))` —
-`M` and `E` are Python ints, nothing is lost before the two Decimal operations. -/
-theorem power_e_reads (p : Nat) (tab : DigitTab) (ht : tab.Ascii) (decSep : Nat) (hsep : decSep ≠ 45)
+theorem e_text_noX (ms : List Nat) (e0 : Nat) (es : List Nat) (neg : Bool) (hm : ∀ d ∈ ms, d < 10)
+    (he : ∀ d ∈ e0 :: es, d < 10) (x : Nat) (hx : 58 ≤ x) (hx2 : x ≠ 101) :
+    x ∉ digitChars ms ++ 101 :: ((if neg then [45] else []) ++ digitChars (e0 :: es)) := by
+  have a := digitChars_le ms hm
+  have b := digitChars_le (e0 :: es) he
+  simp only [List.mem_append, List.mem_cons, not_or]
+  refine ⟨fun h => ?_, hx2, ?_, fun h => ?_⟩
+  · have := a x h; omega
+  · cases neg <;> simp <;> omega
+  · have := b x h; omega
+
+/-- **exponent notation is read exactly** (both variants of the code). `M e E` / `M e -E` with an integer mantissa (ASCII
+digits of any length, any decimal separator character other than `-`): the value is
+`multiply(Decimal(M), power(Decimal(10), Decimal(±E)))` — `M` and `E` are Python ints, nothing is lost before the two
+Decimal operations. -/
+theorem power_e_reads (fx : Bool) (p : Nat) (tab : DigitTab) (ht : tab.Ascii) (decSep : Nat) (hsep : decSep ≠ 45)
     (ms : List Nat) (e0 : Nat) (es : List Nat) (neg : Bool) (hm : ∀ d ∈ ms, d < 10) (he : ∀ d ∈ e0 :: es, d < 10) :
-    powerNumberParse p tab decSep (digitChars ms ++ 101 :: ((if neg then [45] else []) ++ digitChars (e0 :: es))) =
+    powerNumberParse fx p tab decSep (digitChars ms ++ 101 :: ((if neg then [45] else []) ++ digitChars (e0 :: es))) =
       (decPow p (Dec.ofNat 10) (PyNum.toDec (.int (if neg then -((natOfDigits (e0 :: es) : Nat) : Int)
           else ((natOfDigits (e0 :: es) : Nat) : Int))))).map
-        (fun t => Dec.mul p (Dec.ofNat (natOfDigits ms)) t) :=
-  powerNumberParse_e p tab ht decSep hsep ms e0 es neg hm he
+        (fun t => Dec.mul p (Dec.ofNat (natOfDigits ms)) t) := by
+  cases fx
+  · exact powerNumberParse_e p tab ht decSep hsep ms e0 es neg hm he
+  · rw [powerNumberParse_fx_noX p tab decSep _ (e_text_noX ms e0 es neg hm he 88 (by decide) (by decide))
+      (e_text_noX ms e0 es neg hm he 120 (by decide) (by decide))]
+    exact powerNumberParse_e p tab ht decSep hsep ms e0 es neg hm he
 
 /-- **integer powers are exact while they fit 15 digits** (`2^10`, `12^5`, `10^14`): libmpdec's square-and-multiply
 never rounds. -/
@@ -369,23 +389,43 @@ theorem power_caret_exact (N E : Nat) (hN : 2 ≤ N) (hE : 1 ≤ E) (hb : N ^ E 
     decPow 15 (Dec.ofNat N) (Dec.ofNat E) = .ok ⟨false, N ^ E, 0⟩ :=
   decPow_nat_exact 15 N E (by decide) hN hE hb
 
-/-- **`M e E` is exact while `M · 10^E` has at most 15 digits** (`1 ≤ E ≤ 14`). -/
-theorem power_e_exact (tab : DigitTab) (ht : tab.Ascii) (decSep : Nat) (hsep : decSep ≠ 45)
+/-- **`M e E` is exact while `M · 10^E` has at most 15 digits** (`1 ≤ E ≤ 14`; both variants). -/
+theorem power_e_exact (fx : Bool) (tab : DigitTab) (ht : tab.Ascii) (decSep : Nat) (hsep : decSep ≠ 45)
     (ms : List Nat) (e0 : Nat) (es : List Nat) (hm : ∀ d ∈ ms, d < 10) (he : ∀ d ∈ e0 :: es, d < 10)
     (hE1 : 1 ≤ natOfDigits (e0 :: es)) (hE : natOfDigits (e0 :: es) ≤ 14)
     (hb : natOfDigits ms * 10 ^ natOfDigits (e0 :: es) < 10 ^ 15) :
-    powerNumberParse 15 tab decSep (digitChars ms ++ 101 :: digitChars (e0 :: es)) =
+    powerNumberParse fx 15 tab decSep (digitChars ms ++ 101 :: digitChars (e0 :: es)) =
       .ok ⟨false, natOfDigits ms * 10 ^ natOfDigits (e0 :: es), 0⟩ := by
-  have h := power_e_reads 15 tab ht decSep hsep ms e0 es false hm he
+  have h := power_e_reads fx 15 tab ht decSep hsep ms e0 es false hm he
   simp only [Bool.false_eq_true, if_false, List.nil_append, PyNum.toDec, ofInt_natCast] at h
   rw [h, power_caret_exact 10 (natOfDigits (e0 :: es)) (by decide) hE1
     (Nat.pow_lt_pow_right (by decide) (by omega))]
   simp only [Except.map, Dec.mul, Dec.ofNat, Int.add_zero, bne_self_eq_false]
   rw [Dec.fix_small 15 _ _ _ (by decide) hb]
 
+/-- **`M x10^ E` denotes `M · 10^E`** — the full-strength statement, for the repaired variant (`fx = true`:
+`handle.replace('X10^', 'E')`): exact while the product has at most 15 digits. The pre-fix variant violates it
+(`x10_caret_witness`). -/
+theorem power_x10_exact (tab : DigitTab) (ht : tab.Ascii) (decSep : Nat) (hsep : decSep ≠ 45)
+    (ms : List Nat) (e0 : Nat) (es : List Nat) (hm : ∀ d ∈ ms, d < 10) (he : ∀ d ∈ e0 :: es, d < 10)
+    (hE1 : 1 ≤ natOfDigits (e0 :: es)) (hE : natOfDigits (e0 :: es) ≤ 14)
+    (hb : natOfDigits ms * 10 ^ natOfDigits (e0 :: es) < 10 ^ 15) :
+    powerNumberParse true 15 tab decSep (digitChars ms ++ [120, 49, 48, 94] ++ digitChars (e0 :: es)) =
+      .ok ⟨false, natOfDigits ms * 10 ^ natOfDigits (e0 :: es), 0⟩ := by
+  have a := digitChars_le ms hm
+  have b := digitChars_le (e0 :: es) he
+  rw [powerNumberParse_x10 15 tab decSep (digitChars ms) (digitChars (e0 :: es))
+    ⟨fun h => by have := a 88 h; omega, fun h => by have := a 120 h; omega⟩
+    ⟨fun h => by have := b 88 h; omega, fun h => by have := b 120 h; omega⟩]
+  exact power_e_exact true tab ht decSep hsep ms e0 es hm he hE1 hE hb
+
+/-- the hypotheses are satisfiable: `12x10^3` = 12000 in the repaired variant -/
+example : powerNumberParse true 15 asciiDigits 46 (digitChars [1, 2] ++ [120, 49, 48, 94] ++ digitChars [3]) = .ok ⟨false, 12000, 0⟩ :=
+  power_x10_exact asciiDigits asciiDigits_ascii 46 (by decide) [1, 2] 3 [] (by decide) (by decide) (by decide) (by decide) (by decide)
+
 /-- the hypotheses are satisfiable: `12e3` = 12000 -/
-example : powerNumberParse 15 asciiDigits 46 (digitChars [1, 2] ++ 101 :: digitChars [3]) = .ok ⟨false, 12000, 0⟩ :=
-  power_e_exact asciiDigits asciiDigits_ascii 46 (by decide) [1, 2] 3 [] (by decide) (by decide) (by decide) (by decide) (by decide)
+example : powerNumberParse false 15 asciiDigits 46 (digitChars [1, 2] ++ 101 :: digitChars [3]) = .ok ⟨false, 12000, 0⟩ :=
+  power_e_exact false asciiDigits asciiDigits_ascii 46 (by decide) [1, 2] 3 [] (by decide) (by decide) (by decide) (by decide) (by decide)
 
 /-- beyond that range `power(10, ±E)` is still the exact power of ten — the coefficient is cut to 15 digits, the value
 is not changed: `10^-E = 1E-E` and `10^E = 1.00000000000000E+E` for every `E` up to 60 -/
@@ -399,22 +439,26 @@ theorem power_ten_table :
 exact binary expansion times 10^-3 rounds to 0.00120000000000000 —, `2^10` = 1024, `10^-2` = 0.01, `2.5^2` = 6.25,
 `1e16` = 1.00000000000000E+16 -/
 theorem power_instances :
-    okDec (powerNumberParse 15 asciiDigits 46 [49, 46, 53, 101, 51]) ⟨false, 15000, -1⟩ = true ∧
-    okDec (powerNumberParse 15 asciiDigits 46 [49, 46, 50, 101, 45, 51]) ⟨false, 120000000000000, -17⟩ = true ∧
-    okDec (powerNumberParse 15 asciiDigits 46 [50, 94, 49, 48]) ⟨false, 1024, 0⟩ = true ∧
-    okDec (powerNumberParse 15 asciiDigits 46 [49, 48, 94, 45, 50]) ⟨false, 1, -2⟩ = true ∧
-    okDec (powerNumberParse 15 asciiDigits 46 [50, 46, 53, 94, 50]) ⟨false, 625, -2⟩ = true ∧
-    okDec (powerNumberParse 15 asciiDigits 46 [49, 101, 49, 54]) ⟨false, 100000000000000, 2⟩ = true ∧
+    [false, true].all (fun fx =>
+      okDec (powerNumberParse fx 15 asciiDigits 46 [49, 46, 53, 101, 51]) ⟨false, 15000, -1⟩ &&
+      okDec (powerNumberParse fx 15 asciiDigits 46 [49, 46, 50, 101, 45, 51]) ⟨false, 120000000000000, -17⟩ &&
+      okDec (powerNumberParse fx 15 asciiDigits 46 [50, 94, 49, 48]) ⟨false, 1024, 0⟩ &&
+      okDec (powerNumberParse fx 15 asciiDigits 46 [49, 48, 94, 45, 50]) ⟨false, 1, -2⟩ &&
+      okDec (powerNumberParse fx 15 asciiDigits 46 [50, 46, 53, 94, 50]) ⟨false, 625, -2⟩ &&
+      okDec (powerNumberParse fx 15 asciiDigits 46 [49, 101, 49, 54]) ⟨false, 100000000000000, 2⟩) = true ∧
     (F64.add (F64.ofInt 1) (F64.mul F64.pointOne (F64.ofNat 2))).toDec =
       ⟨false, 11999999999999999555910790149937383830547332763671875, -52⟩ := by
   decide +kernel
 
-/-- **Witness (recorded finding).** `1.5x10^3` — a form the English `DoubleExponentialNotationRegex` extracts
-(`(e|x10\^)`) — denotes 1500. The text contains `^`, so the caret rule applies; `X` is skipped and `10` is appended to
-the fraction digits of the mantissa: the value is 1.51³ = 3.442951 (the C# original first rewrites `X10^` to `E`). -/
+/-- **Pre-fix regression witness** (the code as first found, `fx = false`; repaired by findings/numfrac/pow-x10.diff).
+`1.5x10^3` — a form the English `DoubleExponentialNotationRegex` extracts (`(e|x10\^)`) — denotes 1500. The text contains
+`^`, so the caret rule applies; `X` is skipped and `10` is appended to the fraction digits of the mantissa: the value is
+1.51³ = 3.442951. The repaired variant (as the C# original: `X10^` ↦ `E` first) answers 1500. -/
 theorem x10_caret_witness :
-    okDec (powerNumberParse 15 asciiDigits 46 [49, 46, 53, 120, 49, 48, 94, 51]) ⟨false, 344295100000000, -14⟩ = true ∧
-    Dec.format (some (46, 44)) ⟨false, 344295100000000, -14⟩ = [51, 46, 52, 52, 50, 57, 53, 49] := by
+    okDec (powerNumberParse false 15 asciiDigits 46 [49, 46, 53, 120, 49, 48, 94, 51]) ⟨false, 344295100000000, -14⟩ = true ∧
+    Dec.format (some (46, 44)) ⟨false, 344295100000000, -14⟩ = [51, 46, 52, 52, 50, 57, 53, 49] ∧
+    okDec (powerNumberParse true 15 asciiDigits 46 [49, 46, 53, 120, 49, 48, 94, 51]) ⟨false, 15000, -1⟩ = true ∧
+    Dec.format (some (46, 44)) ⟨false, 15000, -1⟩ = [49, 53, 48, 48] := by
   decide +kernel
 
 /-! ## `parse`: tag, sign, format; percentage -/
@@ -432,25 +476,25 @@ theorem branch_selection :
     extraOf asciiTok enFrac.langMarker (some []) [104, 97, 108, 102] = [69, 110, 103] := by decide
 
 /-- **the percentage parser adds exactly one `%`** to whatever the number parser resolves for the inner text and tag -/
-theorem percent_composition (p : Nat) (tab : DigitTab) (T : TokTab) (sp : Nat → Bool) (c : FracCfg)
+theorem percent_composition (fx : Bool) (p : Nat) (tab : DigitTab) (T : TokTab) (sp : Nat → Bool) (c : FracCfg)
     (lf : Option (Nat × Nat)) (supported : List Str) (type : Str) (data : Option Str) (text : Str) (aux : Aux)
-    (v : Val) (res : Str) (h : parse p tab T sp c lf supported type data text aux = .ok (some (v, res))) :
-    percentParse p tab T sp c lf supported type data text aux = .ok (some (v, percentSuffix sp res)) := by
+    (v : Val) (res : Str) (h : parse fx p tab T sp c lf supported type data text aux = .ok (some (v, res))) :
+    percentParse fx p tab T sp c lf supported type data text aux = .ok (some (v, percentSuffix sp res)) := by
   simp [percentParse, h, bind, Except.bind, pure, Except.pure]
 
 /-- end to end on the English configuration: `minus three fifths` (sign prefix of 6 characters) ↦ `-0.6`;
 `2/3` through the percentage parser ↦ `0.666666666666667%`; `1.5e3` ↦ `1500` -/
 theorem parse_instances :
-    (match parse 15 asciiDigits asciiTok (· == 32) enFrac en.longFormat [] [] (some [70, 114, 97, 99, 69, 110, 103])
+    (match parse true 15 asciiDigits asciiTok (· == 32) enFrac en.longFormat [] [] (some [70, 114, 97, 99, 69, 110, 103])
         [109, 105, 110, 117, 115, 32, 116, 104, 114, 101, 101, 32, 102, 105, 102, 116, 104, 115]
         ⟨some 6, [116, 104, 114, 101, 101, 32, 102, 105, 102, 116, 104, 115], [116, 104, 114, 101, 101, 32, 102, 105, 102, 116, 104, 115], [], none⟩ with
       | .ok (some (v, res)) => decide (v = .flt ⟨true, 6, -1⟩) && res == [45, 48, 46, 54]
       | _ => false) = true ∧
-    (match percentParse 15 asciiDigits asciiTok (· == 32) enFrac en.longFormat [] [] (some [70, 114, 97, 99, 78, 117, 109])
+    (match percentParse true 15 asciiDigits asciiTok (· == 32) enFrac en.longFormat [] [] (some [70, 114, 97, 99, 78, 117, 109])
         [50, 47, 51] ⟨none, [50, 47, 51], [50, 47, 51], [], none⟩ with
       | .ok (some (_, res)) => res == [48, 46, 54, 54, 54, 54, 54, 54, 54, 54, 54, 54, 54, 54, 54, 54, 55, 37]
       | _ => false) = true ∧
-    (match parse 15 asciiDigits asciiTok (· == 32) enFrac en.longFormat [] [] (some [68, 111, 117, 98, 108, 101, 80, 111, 119])
+    (match parse true 15 asciiDigits asciiTok (· == 32) enFrac en.longFormat [] [] (some [68, 111, 117, 98, 108, 101, 80, 111, 119])
         [49, 46, 53, 101, 51] ⟨none, [49, 46, 53, 101, 51], [49, 46, 53, 101, 51], [], none⟩ with
       | .ok (some (_, res)) => res == [49, 53, 48, 48]
       | _ => false) = true := by
